@@ -236,6 +236,14 @@ pub fn run(opts: &HashMap<String, String>) -> i32 {
                     run_traced(rid + 900, &input, &v);
                     runs += 1;
                 }
+                // AIGER: the streaming API with sections left early (a run of its own, not compared item by item)
+                if parser == "aag" || parser == "aig" {
+                    let mut k = base.clone();
+                    k.parser = format!("{}_skip", parser);
+                    k.seed = s ^ 0x77;
+                    run_traced(rid + 901, &input, &k);
+                    runs += 1;
+                }
                 // read boundaries placed inside tokens: (a) right after the 8th (7th after '-') byte of every long
                 // digit run, so that the SWAR fast path ends exactly at the end of the buffered data; (b) in the
                 // middle of every token
